@@ -74,6 +74,8 @@ def run(ck):
             base = f.base
             if base in WRITE_EXEMPT or (f.is_lambda and strip_tmpl(f.d.get("parentName") or "") in WRITE_EXEMPT):
                 continue
+            if base not in WRITE_OWNERS and lib.only_reached_from(prog, f, set(WRITE_EXEMPT)):
+                continue        # a private piece of an exempt function (e.g. the eventfd notification of PollableQueue::push)
             if f.file.startswith(facts.VERIF):
                 continue
             nsys += 1
